@@ -31,7 +31,7 @@ pub fn install_panic_hook() {
         // signature without line numbers (they move when unrelated code is edited) and without variable parts
         let head: String = msg.chars().take_while(|c| !c.is_ascii_digit()).take(60).collect();
         let sig = format!("{}|{}", file, head.trim());
-        if std::env::var("AXV_PANIC_VERBOSE").is_ok() { eprintln!("PANIC {info}"); }
+        if std::env::var("AXV_PANIC_VERBOSE").is_ok() { eprintln!("PANIC {info}\n{}", std::backtrace::Backtrace::force_capture()); }
         *LAST_PANIC.lock().unwrap() = Some(format!("{sig}|{line}"));
         PANIC_COUNT.fetch_add(1, std::sync::atomic::Ordering::SeqCst);
     }));
@@ -237,6 +237,7 @@ impl Eng {
     pub fn vacuum(&mut self) -> Out { self.call(Cmd::Vacuum) }
     pub fn analyze(&mut self) -> Out { self.call(Cmd::Analyze) }
     pub fn explain(&mut self, sql: &str) -> Out { self.call(Cmd::Explain(sql.to_string())) }
+    pub fn dump(&mut self) -> Out { self.with(|db| Out::Info(crate::audit::dump(db))) }
     pub fn audit(&mut self) -> Out { self.with(|db| Out::Info(crate::audit::run(db))) }
     pub fn with(&mut self, f: impl FnOnce(&Database) -> Out + Send + 'static) -> Out { self.call(Cmd::With(Box::new(f))) }
 }
